@@ -24,7 +24,7 @@ RULE = ("one case = one NestedFrame (all label kinds incl. repeated, nested colu
 ASSUMPTIONS = ["what the function receives for a MISSING row's nested fields is not specified by the property: compared as 'no values'",
                "NaN and null are told apart through the numpy arrays handed to the function (object/float arrays)"]
 CORRESPONDENCE = "m_reduce_calls / m_count_nested (Frame.v) vs NestedFrame.reduce / count_nested"
-EXTRA_IMPORTS = "Frame"
+EXTRA_IMPORTS = "Frame Dtype Names Reduce2"
 
 
 def arr_tokens(a):
@@ -183,8 +183,44 @@ def generate(ctx):
                         rowt.append("(RNested %s)" % cq_vals(arr_tokens(v) if (j < len(rows) and rows[j] is not None) else []))
                 impl_rows.append(cq_list(rowt))
             impl_t = cq_list(impl_rows)
+            # the glue around the calls (Reduce2.v): which arguments were taken for columns, how the outputs were packed
+            all_args = list(sel) + list(extra)
+
+            def cq_s(x):
+                return "[" + "; ".join(str(ord(ch)) for ch in x) + "]"
+
+            def cq_parg(j, a_):
+                return f"(AStr {cq_s(a_)})" if isinstance(a_, str) else f"(AOther {j})"
+            known_strs = sorted({a_ for a_ in all_args if isinstance(a_, str) and (a_ in ("x", "y", "w", "other.q") or (a_.startswith("n.") and a_[2:] in names))})
+            args_t = cq_list(cq_parg(j, a_) for j, a_ in enumerate(all_args))
+            if calls:
+                a0 = calls[0][0]
+                k_obs = next((k_ for k_ in range(len(a0) + 1) if len(a0) == len(all_args) and [repr(x_) for x_ in a0[k_:]] == [repr(x_) for x_ in all_args[k_:]]), None)
+                if k_obs is None or not all(isinstance(x_, str) for x_ in all_args[:k_obs]):
+                    split_t = "(Some Err)"          # the function did not receive the arguments it was given
+                else:
+                    split_t = (f"(Some (Ok ({cq_list(cq_s(x_) for x_ in all_args[:k_obs])}, "
+                               f"{cq_list(cq_parg(j, a_) for j, a_ in enumerate(all_args) if j >= k_obs)})))")
+            else:
+                split_t = "None"
+            outs = {"dict": ["u", "v"], "dotted": (["u", "out.a", "out.b"] if dotted_variant == 0 else ["out_n", "out.a", "u", "outmax", "out.b"])}.get(shape)
+            obs_cols_t = "None"
+            if outs is not None and res[0] == "ok" and len(nf):
+                out_fr = attempt(lambda: nf.reduce(func, *sel, *extra, **kwargs))
+                if out_fr[0] == "ok":
+                    oc = []
+                    for c_ in out_fr[1].columns:
+                        col_ = out_fr[1][c_]
+                        if hasattr(col_.array, "chunked_array"):
+                            oc.append(f"(ONest {cq_s(str(c_))} {cq_list(cq_s(f_) for f_ in col_.nest.fields)})")
+                        else:
+                            oc.append(f"(OBase {cq_s(str(c_))})")
+                    obs_cols_t = f"(Some {cq_list(oc)})"
+            glue_t = (f"chk_reduce_glue {cq_list(cq_s(x_) for x_ in known_strs)} {args_t} {split_t} "
+                      f"{cq_list(cq_s(x_) for x_ in (outs or []))} {obs_cols_t}")
             term = (f"(let R := {fo.cq_nrows(rows)} in let C := {cq_list(cols_t)} in let I : list (list rarg) := {impl_t} in "
-                    f"[calls_eqb (denan_calls (m_reduce_calls R C)) I; calls_eqb (denan_calls (spec_reduce_calls R C)) I && {cq_bool(res[0] == 'ok' and unchanged and ok_extra and py_other_ok)}; true; true])")
+                    f"[calls_eqb (denan_calls (m_reduce_calls R C)) I && {glue_t}; "
+                    f"calls_eqb (denan_calls (spec_reduce_calls R C)) I && {cq_bool(res[0] == 'ok' and unchanged and ok_extra and py_other_ok)}; true; true])")
             args = {"columns": sel, "extra": extra, "kwargs": kwargs, "shape": shape}
             nontrivial = any(rows)
         else:
